@@ -23,6 +23,9 @@ type LocalAssignStmt struct {
 
 	Names []string
 	Exprs []Expr
+	// IsLocalFunction marks `local function Name ... end`: unlike `local Name = function ... end`
+	// the name is already in scope inside the function body.
+	IsLocalFunction bool
 }
 
 type FuncCallStmt struct {
